@@ -36,6 +36,13 @@ type c20Group struct {
 	GoMaxProcs int         `json:"gomaxprocs"`
 }
 
+// Kinds that may run beside an "oper-post" stream. GLINE takes ConfigMu.Lock while ProcessMessage
+// holds sessionsMu; ThrottleUntil (every POST with a non-zero cool-off), ExpireSessions and the
+// status page take the two locks in the other order. That inversion is a possible deadlock
+// (liveness, DESIGN.md 0.5), not a data race, so the streams that can run into it stay out of
+// groups in which an operator GLINEs.
+var c20OperSafeKinds = []string{"config-read", "direct-config", "snapshot", "getmessages", "direct-output", "direct-store", "config-read", "direct-config"}
+
 var c20Kinds = []string{"post", "post-same-session", "getmessages", "create-delete", "status", "config-read", "expire", "snapshot", "direct-ircserver", "direct-output", "direct-store", "nick-while-polling", "getmessages-reconnect", "restore"}
 
 func c20Run(g c20Group, base string, k int) (overlap bool, err error) {
@@ -77,6 +84,9 @@ func c20Run(g c20Group, base string, k int) (overlap bool, err error) {
 	for _, st := range g.Streams {
 		if st.Kind == "restore" {
 			hasRestore = true
+		}
+		if st.Kind == "oper-post" {
+			n.post(creds[0], "OPER op pw", nextCMID())
 		}
 	}
 	if hasRestore {
@@ -172,6 +182,52 @@ func c20Run(g c20Group, base string, k int) (overlap bool, err error) {
 					}
 				case "config-read":
 					n.private("GET", "/config", nil, "robustirc", nodePassword, nil)
+					if atomic.LoadInt32(&applying) > 0 {
+						atomic.StoreInt32(&overlapped, 1)
+					}
+				case "direct-config":
+					switch r.Intn(4) {
+					case 0:
+						srv.Banned(fmt.Sprintf("10.9.%d.%d", st.Sess, r.Intn(12)))
+					case 1:
+						srv.TrustedBridge("x")
+					case 2:
+						srv.SessionLimit()
+						srv.ChannelLimit()
+					default:
+						srv.OriginWhitelisted("https://web.example")
+					}
+					if atomic.LoadInt32(&applying) > 0 {
+						atomic.StoreInt32(&overlapped, 1)
+					}
+				case "oper-post":
+					// the only poster of its group: an IRC operator whose lines write configuration and
+					// session state (GLINE bans the address of a fresh session, KILL, MODE, TOPIC, ...)
+					oper := creds[0]
+					atomic.AddInt32(&applying, 1)
+					switch r.Intn(7) {
+					case 0, 1, 2:
+						v, code := n.createSession()
+						if code == 200 {
+							v.Addr = fmt.Sprintf("10.9.%d.%d:1", st.Sess, op)
+							nick := fmt.Sprintf("v%d", nextCMID())
+							n.post(v, "NICK "+nick, nextCMID())
+							n.post(v, "USER v 0 * :v", nextCMID())
+							n.post(oper, "GLINE "+nick+" :spam", nextCMID())
+						}
+					case 3:
+						n.post(oper, "MODE #c +o r1", nextCMID())
+						n.post(oper, "MODE #c -o r1", nextCMID())
+					case 4:
+						n.post(oper, fmt.Sprintf("TOPIC #c :t%d", op), nextCMID())
+					case 5:
+						n.post(oper, "AWAY :busy", nextCMID())
+						n.post(oper, "AWAY", nextCMID())
+					default:
+						n.post(oper, fmt.Sprintf("JOIN #d%d", op%3), nextCMID())
+						n.post(oper, fmt.Sprintf("PART #d%d", op%3), nextCMID())
+					}
+					atomic.AddInt32(&applying, -1)
 				case "expire":
 					srv.ExpireSessions()
 				case "snapshot":
@@ -282,7 +338,14 @@ func TestVerifC20(t *testing.T) {
 		g := c20Group{Seed: seed*1000 + int64(k), GoMaxProcs: []int{2, 4, 16}[r.Intn(3)]}
 		ns := 3 + r.Intn(5)
 		restore := r.Intn(6) == 0
-		for s := 0; s < ns; s++ {
+		operGroup := !restore && r.Intn(5) == 0
+		if operGroup {
+			g.Streams = append(g.Streams, c20Stream{Kind: "oper-post", N: 6 + r.Intn(10)})
+			for s := 0; s < ns; s++ {
+				g.Streams = append(g.Streams, c20Stream{Kind: c20OperSafeKinds[r.Intn(len(c20OperSafeKinds))], Sess: r.Intn(3), N: 6 + r.Intn(20)})
+			}
+		}
+		for s := 0; s < ns && !operGroup; s++ {
 			kind := c20Kinds[r.Intn(len(c20Kinds)-1)] // restore is chosen separately
 			if restore && (kind == "getmessages" || kind == "direct-output" || kind == "direct-store" || kind == "status" || kind == "snapshot" || kind == "nick-while-polling" || kind == "getmessages-reconnect") {
 				// a running restore closes the output stream and the log copy under readers and under
@@ -292,7 +355,7 @@ func TestVerifC20(t *testing.T) {
 			g.Streams = append(g.Streams, c20Stream{Kind: kind, Sess: r.Intn(3), N: 3 + r.Intn(12)})
 		}
 		// the two posters on one session are the classic
-		if r.Intn(2) == 0 {
+		if !operGroup && r.Intn(2) == 0 {
 			g.Streams = append(g.Streams, c20Stream{Kind: "post-same-session", N: 8}, c20Stream{Kind: "post-same-session", N: 8})
 		}
 		if restore {
